@@ -19,7 +19,8 @@ The standard's vocabulary:
   account for the elements or members of the subaggregate": the cursor *descends* to the first scalar (or to a character
   array if the initializer is a string literal p14/p15, or to a struct if the expression has struct type p13).
 * an initializer **with braces** initialises the whole subobject at the cursor: everything it does not mention is zero (p19, p21),
-  and it overrides whatever an earlier initializer stored in that subobject (p19).  The same holds for a string literal (p14).
+  and it overrides whatever an earlier initializer stored in that subobject (p19).  The same holds for a string literal (p14),
+  which may itself be enclosed in braces (p14, p15: "optionally enclosed in braces"): `bracedLit`.
 * **union**: the first named member unless designated (p10, p17 fn.); changing the initialised member discards the old one.
 * **unknown bound**: the size is the largest indexed element + 1 (p22); the object of a flexible array member (GNU) likewise.
 * excess initializers (a constraint violation, p2) are consumed and ignored, as gcc and chibicc both do.
@@ -358,6 +359,35 @@ def pathsOf (ty : Ty) (top : Bool) (cur : Option (List Nat)) (toks : List ITok) 
   if isDesg toks then desigPaths ty top (toks.length + 1) [[]] toks
   else pure ((match cur with | some p => [p] | none => []), toks)
 
+/-- an array of *character type* (p14: char, signed char, unsigned char; p15: wchar_t, char16_t, char32_t are integer types) whose
+    elements are as wide as those of the literal.  `_Bool` is not a character type (6.2.5p15): `{ "abc" }` for an array of
+    `_Bool` is an ordinary list whose first initializer is the address of the literal -/
+def chrFits (elem : Ty) (esz : Nat) : Bool :=
+  strFits elem esz && (match elem with | .scalar _ .bool => false | _ => true)
+
+/-- p14, p15: "… may be initialized by a character string literal, OPTIONALLY ENCLOSED IN BRACES": the tokens after `{` are one
+    string literal that may initialise the array of type `t`, then `}` or `, }`.  Result: the literal and what follows the `}` -/
+def bracedLit (t : Ty) (inner : List ITok) : Option (ITok × List ITok) :=
+  match t, inner with
+  | .array e _, .str id bytes esz :: .rbrace :: r => if chrFits e esz then some (.str id bytes esz, r) else none
+  | .array e _, .str id bytes esz :: .comma :: .rbrace :: r => if chrFits e esz then some (.str id bytes esz, r) else none
+  | .inc e, .str id bytes esz :: .rbrace :: r => if chrFits e esz then some (.str id bytes esz, r) else none
+  | .inc e, .str id bytes esz :: .comma :: .rbrace :: r => if chrFits e esz then some (.str id bytes esz, r) else none
+  | _, _ => none
+
+/-- one initializer `tok` WITHOUT braces for the designated subobjects `paths`; `r`: what follows it -/
+def initTokWith (rec : Ty → Bool → Init → Option (List Nat) → List ITok → Bool → Flags → Except Fail Result)
+    (ty : Ty) (top : Bool) (obj : Init) (paths : List (List Nat)) (tok : ITok) (r : List ITok) (fl : Flags) : Except Fail Result := do
+  -- no braces: descend to the subobject this initializer can initialise (p13, p14, p20)
+  let targets ← paths.mapM (fun p => descend ty top tok (p.length + ty.nodes + 2) p)
+  let isStr := match tok with | .str .. => true | _ => false
+  let fl := fl.join ⟨(isStr && targets.any (fun p =>
+        match subTy ty p with | some (.scalar ..) => false | _ => touched obj p))
+      || targets.any (switchesUnion obj), targets.any (exprAbove obj),
+      decide (paths.length > 1) && !(siblings paths && targets == paths), false⟩
+  let obj ← targets.foldlM (fun o p => modifyAt ty top (storeTok ty top tok p) ty [] p o) obj
+  rec ty top obj (next ty top (targets.getLast!.reverse)) r false fl
+
 /-- one initializer of a list whose designated subobjects are `paths` (`rec`: the rest of the same list) -/
 def initItemWith (rec : Ty → Bool → Init → Option (List Nat) → List ITok → Bool → Flags → Except Fail Result)
     (ty : Ty) (top : Bool) (obj : Init) (paths : List (List Nat)) (toks : List ITok) (fl : Flags) : Except Fail Result :=
@@ -369,24 +399,20 @@ def initItemWith (rec : Ty → Bool → Init → Option (List Nat) → List ITok
   | p0 :: _ =>
     match toks with
     | .lbrace :: inner => do
-      -- braces: the whole subobject at the cursor (p19: overrides; p21: the rest is zero)
       let t ← (match subTy ty p0 with | some t => pure t | none => .error (.crash "spec: bad path") : Except Fail Ty)
       let t := if growable ty top p0 then (match t with | .array e _ => Ty.inc e | t => t) else t
-      let sub ← rec t false (braceStart t) (firstCursor t) inner true Flags.none
-      let subObj := defaultMember t (unflex sub.obj)
-      let fl := (fl.join ⟨paths.any (touched obj), paths.any (exprAbove obj), decide (paths.length > 1) && !siblings paths, false⟩).join sub.fl
-      let obj ← paths.foldlM (fun o p => modifyAt ty top (fun _ _ => pure subObj) ty [] p o) obj
-      rec ty top obj (next ty top (paths.getLast!.reverse)) sub.rest false fl
-    | tok :: r => do
-      -- no braces: descend to the subobject this initializer can initialise (p13, p14, p20)
-      let targets ← paths.mapM (fun p => descend ty top tok (p.length + ty.nodes + 2) p)
-      let isStr := match tok with | .str .. => true | _ => false
-      let fl := fl.join ⟨(isStr && targets.any (fun p =>
-            match subTy ty p with | some (.scalar ..) => false | _ => touched obj p))
-          || targets.any (switchesUnion obj), targets.any (exprAbove obj),
-          decide (paths.length > 1) && !(siblings paths && targets == paths), false⟩
-      let obj ← targets.foldlM (fun o p => modifyAt ty top (storeTok ty top tok p) ty [] p o) obj
-      rec ty top obj (next ty top (targets.getLast!.reverse)) r false fl
+      match bracedLit t inner with
+      | some (tok, r) =>
+        -- p14/p15: a string literal in braces for a character array is that string literal: the braces are optional
+        initTokWith rec ty top obj paths tok r fl
+      | none => do
+        -- braces: the whole subobject at the cursor (p19: overrides; p21: the rest is zero)
+        let sub ← rec t false (braceStart t) (firstCursor t) inner true Flags.none
+        let subObj := defaultMember t (unflex sub.obj)
+        let fl := (fl.join ⟨paths.any (touched obj), paths.any (exprAbove obj), decide (paths.length > 1) && !siblings paths, false⟩).join sub.fl
+        let obj ← paths.foldlM (fun o p => modifyAt ty top (fun _ _ => pure subObj) ty [] p o) obj
+        rec ty top obj (next ty top (paths.getLast!.reverse)) sub.rest false fl
+    | tok :: r => initTokWith rec ty top obj paths tok r fl
     | [] => .error (.diag "expected an expression")
 
 /-- index of the flexible array member of the declared object (the last member of a struct type with `is_flexible`) -/
@@ -422,10 +448,15 @@ def initList : Nat → Ty → Bool → Init → Option (List Nat) → List ITok 
     the regions the initializer lies in -/
 def initFull (ty : Ty) (toks : List ITok) : Except Fail Result :=
   match toks with
-  | .lbrace :: r => do
-    -- the object starts as zero (an array of unknown bound: without elements)
-    let res ← initList (toks.length + 2) ty true (unflex (newInit ty true)) (firstCursor ty) r true Flags.none
-    pure { res with obj := defaultMember ty (unflex res.obj) }
+  | .lbrace :: r =>
+    match bracedLit ty r with
+    | some (tok, rest) => do
+      -- p14/p15: a character array initialised by a string literal enclosed in braces
+      pure ⟨← storeTok ty true tok [] ty .flex, rest, Flags.none⟩
+    | none => do
+      -- the object starts as zero (an array of unknown bound: without elements)
+      let res ← initList (toks.length + 2) ty true (unflex (newInit ty true)) (firstCursor ty) r true Flags.none
+      pure { res with obj := defaultMember ty (unflex res.obj) }
   | tok :: r =>
     -- p11 scalar, p13 struct-typed expression, p14/p15 string literal for a character array; anything else needs braces (p16)
     match ty, tok with
